@@ -931,3 +931,42 @@ V("C26-head-error-counts","C26",PO+"check.go","""			} else if err != nil {
 					zap.Error(err),
 				)
 			} else {""",rule="C26.R2")
+
+# ---- C27
+RP="pkg/services/replicator/"
+V("C27-report-on-error","C27",RP+"process.go","""		if err != nil {
+			log.Error("could not replicate object",
+				zap.Error(err),
+			)
+		} else {
+			log.Debug("object successfully replicated")
+""","""		if err != nil && ctx.Err() != nil {
+			log.Error("could not replicate object",
+				zap.Error(err),
+			)
+		} else {
+			log.Debug("object successfully replicated")
+""",rule="C27.R1")
+V("C27-local-put-error-ignored","C27",RP+"process.go","""			if err = p.localStorage.Put(ctx, task.obj, objBin); err != nil {
+				log.Error("could not put object to local storage", zap.Error(err))
+				continue
+			}""","""			if err = p.localStorage.Put(ctx, task.obj, objBin); err != nil {
+				log.Error("could not put object to local storage", zap.Error(err))
+			}""",rule="C27.R1")
+V("C27-no-decrement","C27",RP+"process.go","""			log.Debug("object successfully replicated")
+
+			task.quantity--
+""","""			log.Debug("object successfully replicated")
+""",rule="C27.R2")
+V("C27-loop-without-quantity-test","C27",RP+"process.go","	for i := 0; task.quantity > 0 && i < len(task.nodes); i++ {","	for i := 0; i < len(task.nodes); i++ {",rule="C27.R2")
+V("C27-reports-first-node","C27",RP+"process.go","""			task.quantity--
+
+			res.SubmitSuccessfulReplication(task.nodes[i])
+		}
+	}
+}""","""			task.quantity--
+
+			res.SubmitSuccessfulReplication(task.nodes[0])
+		}
+	}
+}""",rule="C27.R1")
